@@ -68,7 +68,7 @@ CHECKS["C03"] = dict(engine="filter", design="4 C03", technique="TLA+ model chec
    text=("Filter.tla transcribes filter_citations (de-dup by span, stable sort by full span, sweep, final sort by span). TLC checks Sorted, Disjoint, NonRefsKept, Idempotent for every "
          "citation list extraction can produce within bounds (<= 3 non-reference citations with disjoint spans and arbitrary enclosing full spans, <= 2 reference citations inserted "
          "before their full citation or appended). Every emitted list is rebuilt from real citation objects and filtered once and twice; get_citations runs on citation-dense generated "
-         "documents with both merge histories; thorough adds `tlc -simulate` walks of a deeper instance (lists of up to 6 citations); TLC judges order / uniqueness / non-overlap / non-references kept / idempotence and checks model = code on every one."),
+         "documents with both merge histories; every deep layout (3 non-reference + 2 reference citations) of the exhaustive unit-span instance MC_Filter_unit and `tlc -simulate` walks of a deeper instance (lists of up to 7 citations; thorough: 6x more) are replayed too; documents include named fragments x reference forms so that the merge histories contain reference citations; TLC judges order / uniqueness / non-overlap / non-references kept / idempotence and checks model = code on every one."),
    note="Trusted: TLC + Json; the list generation constraints state what extraction can produce (they were derived from the code and are what TLC counterexamples are concretised against).")
 CHECKS["C18"] = dict(engine="editions", design="4 C18", technique="TLA+ model checking of Editions.tla (get_year / includes_year / guess_edition) + extraction over every ambiguous reporter string x boundary years x year positions + TLC trace validation",
    text=("Editions.tla transcribes get_year, Edition.includes_year, guess_edition and the ambiguity filter; TLC checks YearSound and GuessSound for every candidate configuration "
@@ -100,7 +100,7 @@ CHECKS["C04"] = dict(engine="eyecite", design="4 C04", technique="TLC trace vali
    text=("Eyecite.tla composes the public calls into the session a user runs (get_citations with a tokenizer / remove_ambiguous, merge of reference citations, resolve_citations, annotate_citations in three modes) "
          "and has no action for a call that raises; the component models carry err = none invariants (Resolve, SpanUpdater, Annotate). Sessions are recorded on hostile documents (every ordered pair of "
          "hostile fragments, citation x hostile fragment pairs, seeded hostile documents, character mutations) for Aho-Corasick and Hyperscan (reference tokenizer on a subsample) x plain / remove_ambiguous, "
-         "resolution, and annotation with the returned spans in the three modes, every call logged at its return on the error path too; TLC accepts a session iff every event is consumed."),
+         "resolution, and annotation with the returned spans in the three modes, every call logged at its return on the error path too; plus markup sessions (clean_text -> get_citations in markup mode -> two-step merge with filter_citations -> resolution of a prefix -> annotation against the marked-up source; trace actions bind CallCleanWith / CallMergeWith); TLC accepts a session iff every event is consumed. Hostile fragments include placeholder pages in every page position and digit runs longer than int() converts (5,000 digits; defect F23, fixed)."),
    note="Trusted: TLC + Json; 'every Python string' is reached through the hostile closure of the fragment grammar, bounded in depth; non-raise rejections are reported as SPEC-DRIFT (C02/C03/C06 are judged by their own checks).")
 CHECKS["C14"] = dict(engine="hyperscan", design="4 C14", technique="TLA+ model checking of HsOffsets.tla (byte/character offsets) and HsCache.tla (cache life cycle with crashes and corruptions) + replay on real cache directories + TLC-judged candidate comparison",
    text=("HsOffsets.tla models byte-level matching with start-of-match, the widening of hits to whole characters, the byte->character offset table and the re-match; TLC checks for every text of <= 5 characters "
@@ -176,7 +176,7 @@ m = {"version": 1,
              {"name": "annotate", "path": "spec/Annotate.tla spec/SpanUpdater.tla spec/MC_Annotate.tla spec/MC_SpanUpdater.tla spec/Trace_Annotate.tla spec/Trace_SpanUpdater.tla harness/chk_annotate.py harness/drv_annotate.py",
               "serves_properties": ["C09", "C10", "C11"], "kind_free_text": "TLA+ spec, TLC model checking, configuration replay, TLC trace validation"}],
  "checks": checks,
- "notes": "See DESIGN.md. Exit codes: 0 held, 1 VIOLATION, 2 machinery failure.",
+ "notes": "See DESIGN.md. Exit codes: 0 held, 1 VIOLATION, 2 machinery failure. Every trace specification also reports, per monitor clause, how many recorded traces exercised its premise (spec/Hits.tla; evidence coverage.clause_exercised / clauses_never_exercised): accounting, never a verdict.",
  "not_applicable": [{"property_id": p["id"], "reason": NA_REASON} for p in props if p["id"] not in CHECKS]}
 json.dump(m, open("MANIFEST.json", "w"), indent=1)
 print("claimed:", [c["property_id"] for c in checks])
